@@ -55,6 +55,26 @@ func runFree(base string, seed int64, idx int) (res *seqResult) {
 		res.Trace = d.trace
 	}()
 	w.lPart.StartReplica()
+	// spinning: the follower is offline and the replica loop keeps asking the state manager instead of waiting for the
+	// node-startup event (at least spinPolls "not live" answers since the last node event, goroutine not blocked in
+	// IsReady's receive). Verdict first; then the follower is made live so that the loop's goroutine unwinds, and the
+	// loop is stopped.
+	spinning := func() bool {
+		m := w.lSM
+		so, ok := m.replicatorSpinning(m.pollsAtEvent.Load())
+		if !ok {
+			return false
+		}
+		o := d.observe()
+		w.live.Store(true)
+		so.Released = true
+		d.events = []event{{Kind: "free"}}
+		d.reportSpin(o, so, "free-running loop ["+strings.Join(script, " ")+"]: ")
+		w.lPart.Stop()
+		w.lCG.Pause()
+		time.Sleep(20 * time.Millisecond)
+		return true
+	}
 	rounds := 30 + rnd.Intn(60)
 	offlineSince := -1
 	faultKinds := []string{"send", "reqLost", "respLost", "getAck", "reset", "resetRespLost", "createClient", "streamOpen"}
@@ -114,6 +134,12 @@ func runFree(base string, seed int64, idx int) (res *seqResult) {
 			runtime.Gosched()
 		case 1:
 			time.Sleep(time.Duration(rnd.Intn(200)) * time.Microsecond)
+		}
+		if offlineSince >= 0 {
+			d.count("free.offline_rounds_checked_for_spinning_replicator", 1)
+			if spinning() {
+				return res
+			}
 		}
 	}
 	if res.Fatal != "" {
